@@ -59,6 +59,8 @@ func init() {
 		obs = append(obs, c.RegionIndex()...)
 		obs = append(obs, c.RCONFrame()...)
 		obs = append(obs, c.VarLen()...)
+		obs = append(obs, c.HeightMapKeys()...)
+		obs = append(obs, c.PaletteConfig()...)
 		return obs
 	}}
 }
@@ -68,6 +70,26 @@ func init() {
 		var obs []core.Ob
 		obs = append(obs, c.SignaturePolarity()...)
 		obs = append(obs, c.RCONPolarity()...)
+		obs = append(obs, c.CipherWiring()...)
 		return obs
 	}}
+}
+
+func init() {
+	Props["XNBT"] = PropDef{Explanation: "debug: nbt tables", Run: func(c *Ctx) []core.Ob {
+		var obs []core.Ob
+		obs = append(obs, c.TagDispatch("nbt", "nbt/dynbt", "chat")...)
+		obs = append(obs, c.KindTables()...)
+		obs = append(obs, c.ReflKind()...)
+		obs = append(obs, c.Endian()...)
+		obs = append(obs, c.NoMutation()...)
+		obs = append(obs, c.MarshalerContract()...)
+		obs = append(obs, c.NoReadAhead()...)
+		obs = append(obs, c.SNBTSuffix()...)
+		return obs
+	}}
+}
+
+func init() {
+	Props["XBS"] = PropDef{Explanation: "debug: bitstorage", Run: func(c *Ctx) []core.Ob { return c.BitStorageGuards() }}
 }
